@@ -8,6 +8,7 @@ from . import jsonrpc as R
 
 SHORT_TRIGGER = 'none'
 REWRITE_TRIGGER = 'pair'
+WITHHOLD_TRIGGER = 'slow'
 REPLACED_CODE_BASE = 7000
 
 
@@ -60,6 +61,8 @@ def expected_element(element: Dict[str, Any], mw_kinds: List[str], handlers: Dic
             resp = descend(i + 1, req)
         if kind == 'rewrite_resp' and resp is not None and 'result' in resp:
             resp = dict(resp, result=[f'wrapped-{i}', resp['result']])
+        if kind == 'withhold' and req['method'] == WITHHOLD_TRIGGER:
+            resp = None
         events.append(('mw.exit', i))
         return resp
 
